@@ -132,14 +132,19 @@ theorem factoryEdges_parts {r : RawLayer} {l : FLayout} {es : List BEdge} (h : r
 constructor argument is a constant, a private parameter is its function applied to its own arguments, an undefined private
 name is unreachable -/
 inductive ArgDen (r : RawLayer) : String → BTerm → Prop
-  | pub {a} : isPrivate a = false → ArgDen r a (.inp (r.fwdArg a))
+  | pub {a} : isPrivate a = false → isOut a = false → ArgDen r a (.inp (r.fwdArg a))
+  /-- an argument annotated `Output`: what the layer's own field of that name computes -/
+  | out {a ts} (p : RawField) : isPrivate a = false → isOut a = true → p ∈ r.fields → p.name = outName a → p.args.length = ts.length →
+      (∀ q ∈ p.args.zip ts, ArgDen r q.1 q.2) → ArgDen r a (.node (.function p.f [] []) ts)
   | const {a v} : isPrivate a = true → (a, v) ∈ r.consts → ArgDen r a (.node (.constant v) [])
   | param {a ts} (p : RawField) : isPrivate a = true → p ∈ r.params → p.name = a → p.args.length = ts.length →
       (∀ q ∈ p.args.zip ts, ArgDen r q.1 q.2) → ArgDen r a (.node (.function p.f [] []) ts)
 
 /-- the node a forward argument is bound to -/
 def RawLayer.argNode (r : RawLayer) (a : String) : Option BNode :=
-  if isPrivate a then nodeAt r.layout.pBase r.layout.params a else nodeAt 0 r.layout.inputs (r.fwdArg a)
+  if isPrivate a then nodeAt r.layout.pBase r.layout.params a
+  else if isOut a then nodeAt r.layout.oBase r.layout.outputs (outName a)
+  else nodeAt 0 r.layout.inputs (r.fwdArg a)
 
 theorem param_not_input {r : RawLayer} {b : Bag} (hb : b.inputs = nodesAt 0 r.layout.inputs) {a : String} {n : BNode}
     (h : nodeAt r.layout.pBase r.layout.params a = some n) : n ∉ b.inputs := by
@@ -164,9 +169,9 @@ theorem argDen_sound {r : RawLayer} {b : Bag} (h : r.factory = .ok b) {a : Strin
     ∀ n, r.argNode a = some n → BDen b n t := by
   obtain ⟨es, hes, hb, hedges⟩ := factory_shape h
   induction hd with
-  | @pub a hp =>
+  | @pub a hp ho =>
     intro n hn
-    simp only [RawLayer.argNode, hp, Bool.false_eq_true, if_false] at hn
+    simp only [RawLayer.argNode, hp, ho, Bool.false_eq_true, if_false] at hn
     have hm := nodeAt_mem hn
     obtain ⟨_, _, _, rfl⟩ := nodeAt_some hn
     exact .input (hb ▸ hm)
@@ -211,6 +216,38 @@ theorem argDen_sound {r : RawLayer} {b : Bag} (h : r.factory = .ok b) {a : Strin
         simp only [List.mem_append]
         exact Or.inl (Or.inl (Or.inr he))
       refine .edge _ (param_not_input hb hn) hein rfl (by simp) (hl.symm.trans hlen) ?_
+      intro q hq
+      obtain ⟨i, hi, hqi⟩ := List.mem_iff_getElem.1 hq
+      simp only [List.length_zip] at hi
+      have hi1 : i < p.args.length := by omega
+      have hi2 : i < ins.length := by omega
+      have hi3 : i < ts.length := by omega
+      have hq' : q = (ins[i], ts[i]) := by rw [← hqi]; simp
+      subst hq'
+      have hz' := hz (p.args[i], ins[i]) (by rw [List.mem_iff_getElem]; exact ⟨i, by rw [List.length_zip]; omega, by simp⟩)
+      have hat : (p.args[i], ts[i]) ∈ p.args.zip ts := by
+        rw [List.mem_iff_getElem]; exact ⟨i, by rw [List.length_zip]; omega, by simp⟩
+      exact ih (p.args[i], ts[i]) hat ins[i] (by simpa [RawLayer.argNode] using hz')
+    · cases hf
+
+  | @out a ts p hp ho hpm hname hlen _ ih =>
+    intro n hn
+    simp only [RawLayer.argNode, hp, ho, Bool.false_eq_true, if_false, if_true] at hn
+    obtain ⟨consts, params, fields, invs, _, _, hfields, _, rfl⟩ := factoryEdges_parts hes
+    obtain ⟨e, he, hf⟩ := optMapM'_mem _ r.fields fields hfields p hpm
+    unfold RawLayer.fieldEdge at hf
+    split at hf
+    · rename_i pn hpn
+      rw [hname, hn] at hpn
+      injection hpn with hpn; subst hpn
+      simp only [RawLayer.fwdEdge, Option.map_eq_some_iff] at hf
+      obtain ⟨ins, hins, rfl⟩ := hf
+      obtain ⟨hl, hz⟩ := optMapM'_spec _ p.args ins hins
+      have hein : ({ edge := .function p.f [] [], ins := ins, out := n } : BEdge) ∈ b.edges := by
+        apply hedges
+        simp only [List.mem_append]
+        exact Or.inl (Or.inr he)
+      refine .edge _ (out_not_input hb hn) hein rfl (by simp) (hl.symm.trans hlen) ?_
       intro q hq
       obtain ⟨i, hi, hqi⟩ := List.mem_iff_getElem.1 hq
       simp only [List.length_zip] at hi
